@@ -12,7 +12,8 @@ StrVals == {[k |-> "str", toks |-> <<a>>] : a \in Tok} \cup {[k |-> "str", toks 
 Values == StrVals \cup {[k |-> "int"]}
 EvData == {[x \in {"_", "k1"} |-> IF x = "_" THEN [k |-> "null"] ELSE v] : v \in Values}
           \cup {[x \in {"_", "k1", "k2"} |-> IF x = "_" THEN [k |-> "null"] ELSE IF x = "k1" THEN v ELSE w] : v \in {[k |-> "str", toks |-> <<a>>] : a \in Tok}, w \in {[k |-> "str", toks |-> <<a>>] : a \in Tok} \cup {[k |-> "int"]}}
-Rules == [rx : Tok \cup {[t |-> "", c |-> "l"]}, ic : BOOLEAN, hs : BOOLEAN, sk : {<<>>, <<"k2">>, <<"k9", "k1">>}]
+Rx == {[t |-> a.t, c |-> a.c, t2 |-> ""] : a \in Tok} \cup {[t |-> "", c |-> "l", t2 |-> ""]} \cup {[t |-> "t1", c |-> "l", t2 |-> "t2"]}
+Rules == [rx : Rx, ic : BOOLEAN, hs : BOOLEAN, sk : {<<>>, <<"k2">>, <<"k9", "k1">>}]
 Classes == [cls : Cats, rule : Rules]
 RECURSIVE SeqsUpTo(_, _)
 SeqsUpTo(S, n) == IF n = 0 THEN {<<>>} ELSE SeqsUpTo(S, n - 1) \cup {Append(q, x) : q \in {r \in SeqsUpTo(S, n - 1) : Len(r) = n - 1}, x \in S}
